@@ -3,16 +3,16 @@ CONSTANTS
   Remedy = {"r1"}
   Group = {"a", "u"}
   W0 <- cW
-  WChoices = {2, 4, 6}
+  WChoices = {2, 4}
   Allowed <- cAllowed
   Pct <- cPct
   DefBehav <- cDefBehav
   DefPct <- cDefPct
-  MaxNow = 12
-  Steps = {1, 2, 3}
+  MaxNow = 8
+  Steps = {1, 2}
   StrictAfter = FALSE
-  StaleWindow = FALSE
-  MaxSetW = 3
+  StaleWindow = TRUE
+  MaxSetW = 2
 SPECIFICATION IPSpec
 PROPERTIES Conforms Isolation
 INVARIANT PerWindow
